@@ -357,3 +357,6 @@ def run(ctx: Ctx, rep: Report, tier: str):
     from rules.common import rename_copy_guard
     rep.rule("C11.X11", "re-keying an entry on rename never overwrites an indexed peer half (C04.R11)", 1)
     section(rep, lambda: rename_copy_guard(ctx, rep, "C11.X11"))
+    from rules.common import change_oid_cleans_the_popped_entrys_slot
+    rep.rule("C11.X12", "_change_oid cleans the (path, id) slot of the entry it popped from the id index, with that entry's path", 1)
+    section(rep, lambda: change_oid_cleans_the_popped_entrys_slot(ctx, rep, "C11.X12"))
